@@ -9,6 +9,13 @@ Executable model over core `Rat` (no imports) of
   `brightPerc`, `brightPercOld` (the pre-fix `if bg_off:` test, F19)
 * `dclab/features/fl_crosstalk.py`                  → `spill`, `compensate`, `compMatrix`
 * `dclab/features/contour.py:remove_duplicates`     → `removeDuplicates`
+* `dclab/features/fl_crosstalk.py:correct_crosstalk` (one channel) → `correctChannel`, `twoChannel`
+* batch calls of `get_bright_bc` / `get_bright_perc` with `bg_off` containers and `ret_data`
+  → `BgOff`, `subOff`, `brightBcBatch`, `brightPercBatch`
+* `dclab/features/contour.py:LazyContourList.__getitem__` with events whose `get_contour` raises
+  → `lclGet`, `lclRun` (and the faulty early-registration variant `lclGetEarly`)
+* the rotation inside `get_inert_ratio_prnc` → `rot`, `rotatedSecond`, `prncSq` (cosine and sine
+  of the angle are parameters)
 
 Every definition follows the Python text term by term (the names of the Python variables are
 kept); floating point is replaced by exact rationals, `sqrt`/`atan2` do not occur (the inertia
@@ -383,5 +390,249 @@ def removeDuplicates [DecidableEq α] (cont : List α) : List α :=
   match cont with
   | [] => []
   | a :: _ => (compress (cont ++ [a])).dropLast
+
+/-! ## 4b. single-channel correction and the closed forms of the sub-cases -/
+
+/-- column `k-1` of a 3×3 matrix (`minv[:, fl_channel - 1]`) -/
+def column (m : Mat3) (k : Nat) : Option Vec3 :=
+  match k with
+  | 1 => some (m.c11, m.c21, m.c31)
+  | 2 => some (m.c12, m.c22, m.c32)
+  | 3 => some (m.c13, m.c23, m.c33)
+  | _ => none
+
+/-- component `k` (1-based) of a signal triple -/
+def channel (x : Vec3) (k : Nat) : Option Rat :=
+  match k with
+  | 1 => some x.1
+  | 2 => some x.2.1
+  | 3 => some x.2.2
+  | _ => none
+
+inductive CorrErr where
+  | channel | negative | singular
+deriving DecidableEq, Repr
+
+/-- `correct_crosstalk(fl1, fl2, fl3, fl_channel, ct21, …)`: the channel test comes first
+(`ValueError`), then `get_compensation_matrix`, then `col[0]*fl1 + col[1]*fl2 + col[2]*fl3` -/
+def correctChannel (k : Nat) (ct21 ct31 ct12 ct32 ct13 ct23 : Rat) (y : Vec3) : Except CorrErr Rat :=
+  if k ≠ 1 ∧ k ≠ 2 ∧ k ≠ 3 then .error .channel
+  else
+    match compMatrix ct21 ct31 ct12 ct32 ct13 ct23 with
+    | .error .negative => .error .negative
+    | .error .singular => .error .singular
+    | .ok m =>
+      match column m k with
+      | none => .error .channel
+      | some col => .ok (col.1 * y.1 + col.2.1 * y.2.1 + col.2.2 * y.2.2)
+
+/-- closed form for two channels `a`, `b` that exchange spill (`cab` from a to b, `cba` from b
+to a): true signals from the measured `(u, v)` -/
+def twoChannel (cab cba u v : Rat) : Rat × Rat :=
+  ((u - cba * v) / (1 - cab * cba), (v - cab * u) / (1 - cab * cba))
+
+/-! ## 3b. batch calls of `get_bright_bc` / `get_bright_perc` with per-event offsets -/
+
+/-- the `bg_off` argument of a batch call -/
+inductive BgOff where
+  | none
+  | scalar (o : Rat)
+  | array (os : List Rat)      -- 1-D array / list / tuple / the `bg_off` feature
+deriving Repr
+
+/-- `v -= bg_off` (NumPy in-place broadcasting: equal length or length one, else `ValueError`) -/
+def subOff (v : List Rat) (off : BgOff) : Option (List Rat) :=
+  match off with
+  | .none => some v
+  | .scalar o => some (v.map (· - o))
+  | .array os =>
+    if os.length = v.length then some (List.zipWith (· - ·) v os)
+    else match os with
+      | [o] => some (v.map (· - o))
+      | _ => none
+
+/-- `get_bright_bc(mask, image, image_bg, bg_off, ret_data)` for a list of events.
+`retAvg = ("avg" in ret_data)`, `retSd = ("sd" in ret_data)`; result = the selected metrics in
+the order avg, sd (`sd` as variance), `none` = `ValueError` (nothing selected / broadcasting) -/
+def brightBcBatch (ev : List (List Px)) (off : BgOff) (retAvg retSd : Bool) :
+    Option (List (List Rat)) :=
+  if !retAvg && !retSd then none
+  else
+    let avg := ev.map (fun px => mean (masked px))
+    let var := ev.map (fun px => variance (masked px))
+    if retAvg then
+      match subOff avg off with
+      | none => none
+      | some a => some (if retSd then [a, var] else [a])
+    else some [var]
+
+/-- `get_bright_perc(mask, image, image_bg, bg_off)` for a list of events: `(p10, p90)` -/
+def brightPercBatch (ev : List (List Px)) (off : BgOff) : Option (List Rat × List Rat) :=
+  let p10 := ev.map (fun px => percentile 10 (masked px))
+  let p90 := ev.map (fun px => percentile 90 (masked px))
+  match subOff p10 off, subOff p90 off with
+  | some a, some b => some (a, b)
+  | _, _ => none
+
+/-- per-event background shift -/
+def bgShiftEach (os : List Rat) (ev : List (List Px)) : List (List Px) :=
+  List.zipWith bgShift os ev
+
+/-! ## 6. `LazyContourList.__getitem__` with events whose contour computation fails -/
+
+/-- the two parallel deques of `LazyContourList` -/
+structure Lcl (C : Type) where
+  indices  : List Nat
+  contours : List C
+deriving Repr
+
+/-- `self.indices.index(idx)` (`none` = `ValueError`) -/
+def lclFind (i : Nat) : List Nat → Option Nat
+  | [] => none
+  | j :: r => if j = i then some 0 else (lclFind i r).map (· + 1)
+
+/-- `deque(maxlen=m).append(x)`; `m = 0` ⇒ unbounded (`max_events or None`) -/
+def lclPush (m : Nat) (l : List α) (x : α) : List α :=
+  let l' := l ++ [x]
+  if m ≠ 0 ∧ l'.length > m then l'.drop (l'.length - m) else l'
+
+/-- what one integer access does -/
+inductive LclOut (E C : Type) where
+  | hit (c : C)          -- taken from the deque
+  | computed (c : C)     -- `get_contour(self.masks[idx])` succeeded
+  | raised (e : E)       -- `get_contour` raised; re-raised with "Event idx, …"
+  | indexError           -- `self.contours[idx_q]` out of range (deques out of step)
+deriving DecidableEq, Repr
+
+/-- the observable result: a contour, an exception of `get_contour`, or (`none`) a stray
+`IndexError` of the deque -/
+def LclOut.result : LclOut E C → Option (Except E C)
+  | .hit c => some (.ok c)
+  | .computed c => some (.ok c)
+  | .raised e => some (.error e)
+  | .indexError => none
+
+/-- `LazyContourList.__getitem__(idx)` for an integer index. `f i` = `get_contour(masks[i])`
+(`.error` when it raises). Both deques are appended *after* the contour is available, on a miss
+and on a hit; when `get_contour` raises nothing is appended. -/
+def lclGet (f : Nat → Except E C) (m : Nat) (d : Lcl C) (i : Nat) : Lcl C × LclOut E C :=
+  match lclFind i d.indices with
+  | none =>
+    match f i with
+    | .error e => (d, .raised e)
+    | .ok c => ({ indices := lclPush m d.indices i, contours := lclPush m d.contours c },
+                .computed c)
+  | some q =>
+    match d.contours[q]? with
+    | none => (d, .indexError)
+    | some c => ({ indices := lclPush m d.indices i, contours := lclPush m d.contours c }, .hit c)
+
+/-- the restructuring that registers the index *before* the contour is computed (and only for
+new contours): after a failing event `indices` is one longer than `contours` -/
+def lclGetEarly (f : Nat → Except E C) (m : Nat) (d : Lcl C) (i : Nat) : Lcl C × LclOut E C :=
+  match lclFind i d.indices with
+  | none =>
+    let ind := lclPush m d.indices i
+    match f i with
+    | .error e => ({ d with indices := ind }, .raised e)
+    | .ok c => ({ indices := ind, contours := lclPush m d.contours c }, .computed c)
+  | some q =>
+    match d.contours[q]? with
+    | none => (d, .indexError)
+    | some c => (d, .hit c)
+
+/-- a history of integer accesses: final deques and the outcome of every access -/
+def lclRun (get : Lcl C → Nat → Lcl C × LclOut E C) : Lcl C → List Nat → Lcl C × List (LclOut E C)
+  | d, [] => (d, [])
+  | d, i :: r =>
+    let (d1, o) := get d i
+    let (d2, os) := lclRun get d1 r
+    (d2, o :: os)
+
+def Lcl.empty : Lcl C := { indices := [], contours := [] }
+
+/-! ### slices and index arrays -/
+
+/-- how an access that hands out several contours can fail -/
+inductive LclFail (E : Type) where
+  | raised (e : E)     -- `get_contour` raised for one of the events
+  | indexError         -- stray `IndexError` of the deque
+deriving DecidableEq, Repr
+
+/-- `LazyContourList.__getitem__(idx)` for a slice / index array: `indices = np.arange(len(self))[idx]`
+(computed by the caller of the model), then `for evid in indices: output.append(self[evid])`;
+the first exception propagates, the contours computed before stay cached -/
+def lclGetMany (f : Nat → Except E C) (m : Nat) : Lcl C → List Nat → Lcl C × Except (LclFail E) (List C)
+  | d, [] => (d, .ok [])
+  | d, i :: r =>
+    match lclGet f m d i with
+    | (d1, .raised e) => (d1, .error (.raised e))
+    | (d1, .indexError) => (d1, .error .indexError)
+    | (d1, .hit c) =>
+      match lclGetMany f m d1 r with
+      | (d2, .ok cs) => (d2, .ok (c :: cs))
+      | (d2, .error e) => (d2, .error e)
+    | (d1, .computed c) =>
+      match lclGetMany f m d1 r with
+      | (d2, .ok cs) => (d2, .ok (c :: cs))
+      | (d2, .error e) => (d2, .error e)
+
+/-- spec: the contours of the requested events, or the exception of the first event without one -/
+def ownContours (f : Nat → Except E C) : List Nat → Except (LclFail E) (List C)
+  | [] => .ok []
+  | i :: r =>
+    match f i with
+    | .error e => .error (.raised e)
+    | .ok c =>
+      match ownContours f r with
+      | .ok cs => .ok (c :: cs)
+      | .error e => .error e
+
+/-- one user-level access -/
+inductive LclOp where
+  | int (i : Nat)            -- `lcl[i]`
+  | many (is : List Nat)     -- `lcl[a:b:c]`, `lcl[index_array]`
+deriving DecidableEq, Repr
+
+def lclOp (f : Nat → Except E C) (m : Nat) (d : Lcl C) : LclOp → Lcl C × Except (LclFail E) (List C)
+  | .int i =>
+    match lclGet f m d i with
+    | (d1, .raised e) => (d1, .error (.raised e))
+    | (d1, .indexError) => (d1, .error .indexError)
+    | (d1, .hit c) => (d1, .ok [c])
+    | (d1, .computed c) => (d1, .ok [c])
+  | .many is => lclGetMany f m d is
+
+def LclOp.events : LclOp → List Nat
+  | .int i => [i]
+  | .many is => is
+
+def lclOps (f : Nat → Except E C) (m : Nat) :
+    Lcl C → List LclOp → Lcl C × List (Except (LclFail E) (List C))
+  | d, [] => (d, [])
+  | d, o :: r =>
+    let (d1, x) := lclOp f m d o
+    let (d2, xs) := lclOps f m d1 r
+    (d2, x :: xs)
+
+/-! ## 1b. rotation (`get_inert_ratio_prnc`) -/
+
+/-- rotation of a point by the angle with cosine `c` and sine `s`
+(`rho·cos(phi + α)`, `rho·sin(phi + α)` of `get_inert_ratio_prnc` in Cartesian form) -/
+def rot (c s : Rat) (p : Pt) : Pt := (c * p.1 - s * p.2, s * p.1 + c * p.2)
+
+/-- second central moments `(m00, mu20, mu11, mu02)` of the contour rotated by `(c, s)`:
+`mprnc = cont_moments_cv(rotated cc)` of `get_inert_ratio_prnc` -/
+def rotatedSecond (dblEps c s : Rat) (cont : List Pt) : Rat × Rat × Rat × Rat :=
+  let m := momentsCore dblEps (cont.map (rot c s))
+  (m.m00, m.mu20, m.mu11, m.mu02)
+
+/-- square of `get_inert_ratio_prnc`: `mu20/mu02` of the contour rotated by the angle
+`orient + π/2` whose cosine and sine are `c`, `s` (parameters: `arctan2`, `cos`, `sin` are not
+modelled); `none` when `cont_moments_cv` returns `None` -/
+def prncSq (fltEps dblEps c s : Rat) (cont : List Pt) : Option Rat :=
+  match moments fltEps dblEps cont, moments fltEps dblEps (cont.map (rot c s)) with
+  | some _, some m => some (m.mu20 / m.mu02)
+  | _, _ => none
 
 end DclabModel.Feat
